@@ -19,6 +19,7 @@ Byte strings are hex ("-" = empty).  See vlib/harness.py for the Python side.
 #include <stdlib.h>
 #include <string.h>
 #include <sys/mman.h>
+#include <sys/resource.h>
 #include <sys/stat.h>
 #include <sys/types.h>
 #include <sys/wait.h>
@@ -74,6 +75,7 @@ volatile long oom_count = 0;
 volatile long oom_fail_at = -1;   // 1-based index of the allocation to fail
 volatile int oom_fail_after = 0;  // also fail every later one
 volatile long oom_failed = 0;
+volatile int oom_armed = 1;       // allocations are counted / failed only while armed
 
 #define API(x)        \
   do                  \
@@ -226,10 +228,17 @@ static const char* include_cb(
     const char* calling_ns,
     void* ud)
 {
+  int saved_in_api = oom_in_api;
+  const char* res = NULL;
+  oom_in_api = 0;
   for (int i = 0; i < nincl; i++)
     if (strcmp(incls[i].name, name) == 0)
-      return strdup(incls[i].content);
-  return NULL;
+    {
+      res = strdup(incls[i].content);
+      break;
+    }
+  oom_in_api = saved_in_api;
+  return res;
 }
 
 static void include_free(const char* p, void* ud)
@@ -457,6 +466,8 @@ typedef struct
 static size_t strm_write(const void* ptr, size_t size, size_t count, void* ud)
 {
   STRM* s = (STRM*) ud;
+  int saved_in_api = oom_in_api;
+  oom_in_api = 0;
   size_t total = size * count;
   const uint8_t* p = (const uint8_t*) ptr;
 #ifdef YRH_VALGRIND
@@ -479,6 +490,7 @@ static size_t strm_write(const void* ptr, size_t size, size_t count, void* ud)
     s->img->n += c;
     done += c;
   }
+  oom_in_api = saved_in_api;
   return count;
 }
 
@@ -1481,15 +1493,25 @@ static int exec_line(char* line)
   }
   else if (strcmp(op, "oomoff") == 0)
   {
-    fprintf(out, "{\"op\":\"oomoff\",\"count\":%ld,\"failed\":%ld}\n", oom_count, oom_failed);
-    oom_fail_at = -1;
-    oom_fail_after = 0;
+    // end of the fault window
+    oom_armed = 0;
+    fprintf(out, "{\"op\":\"oomoff\"}\n");
+  }
+  else if (strcmp(op, "oomrearm") == 0)
+  {
+    oom_armed = 1;
   }
   else if (strcmp(op, "stats") == 0)
   {
     int r = slot(tk[1], NRULES);
     YR_RULES_STATS st;
     memset(&st, 0, sizeof(st));
+    if (!rules_[r])
+    {
+      fprintf(out, "{\"op\":\"stats\",\"rc\":-2,\"skipped\":1}\n");
+      fflush(out);
+      return 0;
+    }
     API(rc = yr_rules_get_stats(rules_[r], &st));
     fprintf(out, "{\"op\":\"stats\",\"rc\":%d,\"rules\":%u,\"strings\":%u,\"acm\":%u,\"root\":%u}\n", rc, st.num_rules, st.num_strings, st.ac_matches, st.ac_root_match_list_length);
   }
@@ -1589,11 +1611,31 @@ static int oom_mode(int argc, char** argv)
     kto = N;
   int running = 0;
   int maxpar = getenv("YRH_OOM_PAR") ? atoi(getenv("YRH_OOM_PAR")) : 1;
+  if (maxpar > 64)
+    maxpar = 64;
+  pid_t pids[64];
+  long ks[64];
+  for (int i = 0; i < 64; i++) pids[i] = 0;
   for (long k = kfrom; k <= kto; k += stride)
   {
+    while (running >= maxpar)
+    {
+      pid_t w = waitpid(-1, &st, 0);
+      if (w <= 0)
+        break;
+      for (int i = 0; i < 64; i++)
+        if (pids[i] == w)
+        {
+          printf("{\"k\":%ld,\"status\":%d,\"sig\":%d}\n", ks[i], WIFEXITED(st) ? WEXITSTATUS(st) : -1, WIFSIGNALED(st) ? WTERMSIG(st) : 0);
+          pids[i] = 0;
+        }
+      running--;
+    }
     pid = fork();
     if (pid == 0)
     {
+      struct rlimit rl = {20, 25};
+      setrlimit(RLIMIT_CPU, &rl);
       snprintf(path, sizeof(path), "%s/oom_%ld.out", outdir, k);
       out = fopen(path, "w");
       snprintf(path, sizeof(path), "%s/oom_%ld.err", outdir, k);
@@ -1610,20 +1652,26 @@ static int oom_mode(int argc, char** argv)
       fclose(out);
       _exit(leak ? 77 : 0);
     }
-    running++;
-    while (running >= maxpar)
-    {
-      pid_t w = waitpid(-1, &st, 0);
-      if (w <= 0)
+    for (int i = 0; i < 64; i++)
+      if (pids[i] == 0)
+      {
+        pids[i] = pid;
+        ks[i] = k;
         break;
-      running--;
-    }
-    (void) st;
+      }
+    running++;
   }
   while (running > 0)
   {
-    if (waitpid(-1, &st, 0) <= 0)
+    pid_t w = waitpid(-1, &st, 0);
+    if (w <= 0)
       break;
+    for (int i = 0; i < 64; i++)
+      if (pids[i] == w)
+      {
+        printf("{\"k\":%ld,\"status\":%d,\"sig\":%d}\n", ks[i], WIFEXITED(st) ? WEXITSTATUS(st) : -1, WIFSIGNALED(st) ? WTERMSIG(st) : 0);
+        pids[i] = 0;
+      }
     running--;
   }
   printf("{\"done\":1}\n");
